@@ -41,6 +41,9 @@ type c09Op struct {
 	Kept bool   `json:"kept,omitempty"`
 	Name string `json:"name,omitempty"`
 	How  string `json:"how,omitempty"` // func var type const
+	// for kept references: "" = a new function of its own; "group" = a new spec of the file's var
+	// group (an existing declaration that earlier writes have already walked is extended)
+	Shape string `json:"shape,omitempty"`
 }
 
 type c09Spec struct {
@@ -105,12 +108,22 @@ func c09Execute(ops []c09Op) (r c09Run) {
 	conf := &gogen.Config{Fset: token.NewFileSet(), Importer: c09Imp, DefaultGoFile: fileName(0)}
 	pkg := gogen.NewPackage("", "main", conf)
 	nfn := 0
+	groups := map[int]*gogen.VarDefs{}
 	for i, o := range ops {
 		switch o.K {
 		case "ref":
 			pkg.SetCurFile(fileName(o.F), true)
 			ref := pkg.Import(c09Pkgs[o.P].Path).Ref(c09Pkgs[o.P].Sym)
-			if o.Kept {
+			if o.Kept && o.Shape == "group" {
+				nfn++
+				g := groups[o.F]
+				if g == nil {
+					g = pkg.NewVarDefs(pkg.Types.Scope())
+					groups[o.F] = g
+					g.NewAndInit(func(cb *gogen.CodeBuilder) int { cb.Val(0); return 1 }, token.NoPos, nil, fmt.Sprintf("zzg%d", o.F))
+				}
+				g.NewAndInit(func(cb *gogen.CodeBuilder) int { cb.Val(ref); return 1 }, token.NoPos, nil, fmt.Sprintf("zzv%d", nfn))
+			} else if o.Kept {
 				nfn++
 				cb := pkg.NewFunc(nil, fmt.Sprintf("zz%d", nfn), nil, nil, false).BodyStart(pkg)
 				cb.VarRef(nil).Val(ref).Assign(1).End()
@@ -171,7 +184,11 @@ func c09Gen(r *rand.Rand, maxLen int) []c09Op {
 		p := pool[r.Intn(len(pool))]
 		switch x := r.Intn(100); {
 		case x < 45:
-			ops = append(ops, c09Op{K: "ref", F: f, P: p, Kept: r.Intn(6) != 0})
+			o := c09Op{K: "ref", F: f, P: p, Kept: r.Intn(6) != 0}
+			if o.Kept && r.Intn(3) == 0 {
+				o.Shape = "group"
+			}
+			ops = append(ops, o)
 		case x < 50:
 			ops = append(ops, c09Op{K: "force", F: f, P: p})
 		case x < 72:
@@ -237,6 +254,10 @@ func c09Corpus() [][]c09Op {
 		// three packages of the same name in one file, alone and next to a declaration named like the first renaming
 		{{K: "ref", F: 0, P: 4, Kept: true}, {K: "ref", F: 0, P: 5, Kept: true}, {K: "ref", F: 0, P: 10, Kept: true}, {K: "write", F: 0}},
 		{{K: "declare", F: 0, Name: "rand1", How: "var"}, {K: "ref", F: 0, P: 10, Kept: true}, {K: "ref", F: 0, P: 4, Kept: true}, {K: "ref", F: 0, P: 5, Kept: true}, {K: "write", F: 0}},
+		// an existing declaration (the file's var group) is extended after a write has walked it:
+		// the new spec holds the first reference to another package
+		{{K: "ref", F: 0, P: 0, Kept: true, Shape: "group"}, {K: "write", F: 0}, {K: "ref", F: 0, P: 1, Kept: true, Shape: "group"}, {K: "write", F: 0}},
+		{{K: "ref", F: 0, P: 4, Kept: true, Shape: "group"}, {K: "write", F: 0}, {K: "ref", F: 0, P: 5, Kept: true, Shape: "group"}, {K: "write", F: 0}, {K: "ref", F: 0, P: 10, Kept: true, Shape: "group"}, {K: "write", F: 0}},
 		// a name declared after the first write
 		{{K: "ref", F: 0, P: 1, Kept: true}, {K: "write", F: 0}, {K: "declare", F: 0, Name: "strings", How: "func"}, {K: "write", F: 0}},
 	}
